@@ -180,6 +180,19 @@ impl SoundData for ProbeSoundData {
 	}
 }
 
+/// A `SoundData` whose `into_sound()` fails (like a streaming sound whose decoder cannot start):
+/// `play` must return `PlaySoundError::IntoSoundError` and leave the track's sound storage untouched.
+pub struct FailingSoundData;
+#[derive(Debug, PartialEq)]
+pub struct ProbeIntoSoundError;
+impl SoundData for FailingSoundData {
+	type Error = ProbeIntoSoundError;
+	type Handle = ();
+	fn into_sound(self) -> Result<(Box<dyn Sound>, ()), ProbeIntoSoundError> {
+		Err(ProbeIntoSoundError)
+	}
+}
+
 // ---------------------------------------------------------------------------------------------
 // probe effect
 // ---------------------------------------------------------------------------------------------
